@@ -183,6 +183,18 @@ func isPow2(x *big.Int) bool {
 	return y.And(y, x).Sign() == 0
 }
 
+// nearEdge decodes the specification's value codes 100000 + 10 j + side (side 1: just below bin edge j, 2: just above).
+func nearEdge(x int64) (j int64, side float64, ok bool) {
+	if x < 100000 {
+		return 0, 0, false
+	}
+	j, s := (x-100000)/10, (x-100000)%10
+	if s == 1 {
+		return j, -1, true
+	}
+	return j, 1, true
+}
+
 func histReplay(in io.Reader, raw bool, args []string) (*Summary, error) {
 	sum := &Summary{Rule: "one case per (shape, multiset of added lattice values) emitted by TLC with the expected counters and the admissible set of every quantile level k/16; values are added one at a time and after every Add exactly the specified counter must have moved; non-trivial = at least 2 values of which at least one lands in a bin; quantiles are also asked of a user-defined Histogram carrying the same counters"}
 	err := forEachCase(in, raw, func(c json.RawMessage) {
@@ -216,7 +228,13 @@ func histReplay(in io.Reader, raw bool, args []string) (*Summary, error) {
 		if sh.Kind == "lin" {
 			mn, mx := float64(sh.Min)/float64(sh.Unit), float64(sh.Max)/float64(sh.Unit)
 			h = stats.NewLinearHist(mn, mx, sh.NBins)
-			val = func(x int64) float64 { return float64(x) / float64(sh.Unit) }
+			val = func(x int64) float64 {
+				if j, side, ok := nearEdge(x); ok { // just below / above bin edge j: 1e-10 of a bin width away
+					bw := (mx - mn) / float64(sh.NBins)
+					return mn + (float64(j)+side*1e-10)*bw
+				}
+				return float64(x) / float64(sh.Unit)
+			}
 			w := big.NewRat(sh.Max-sh.Min, int64(sh.NBins)*sh.Unit)
 			b2v = func(t *big.Rat) float64 {
 				return rf(new(big.Rat).Add(big.NewRat(sh.Min, sh.Unit), new(big.Rat).Mul(t, w)))
@@ -227,6 +245,9 @@ func histReplay(in io.Reader, raw bool, args []string) (*Summary, error) {
 			mx := math.Pow(float64(sh.B), (float64(sh.NBins)-0.5)/float64(sh.M))
 			h = stats.NewLogHist(sh.B, float64(sh.M), mx)
 			val = func(x int64) float64 {
+				if j, side, ok := nearEdge(x); ok { // edge b^(j/m) times (1 -+ 1e-10): clearly off the edge, far inside rounding reach of nothing
+					return math.Pow(float64(sh.B), float64(j)/float64(sh.M)) * (1 + side*1e-10)
+				}
 				if x == 0 {
 					return 0.5
 				}
